@@ -20,7 +20,9 @@ _I32 = [-(2**31), 2**31 - 1, -1, 0, 1, 2, 7, 100]
 _I64 = [-(2**63), 2**63 - 1, 2**53, 2**53 + 1, -(2**53) - 1, -1, 0, 1, 2, 3, 10, 9]
 _F64 = [0.0, -0.0, 1.0, -1.0, 0.5, 1.5, 2.0, 5.0, 1e300, -1e300, 5e-324, float("inf"), float("-inf"), float("nan"), 0.1, 2.0**53]
 _F32 = [f32(v) for v in [0.0, -0.0, 1.0, -1.0, 0.5, 1.5, 2.0, 5.0, 3.4e38, -3.4e38, 1e-45, 0.1]] + [float("inf"), float("-inf"), float("nan")]
-_STR = ["", "a", "b", "ab", "A", "10", "9", "09", "-1", "1e3", "true", "é", "日本", "\U0001f600", "z", " ", "a b"]
+_STR = ["", "a", "b", "ab", "A", "10", "9", "09", "-1", "1e3", "true", "é", "日本", "\U0001f600", "z", " ", "a b",
+        # long values sharing a long prefix (anything that abbreviates strings - statistics, bounds - must still order them)
+        "p" * 64, "p" * 64 + "a", "p" * 64 + "b", "p" * 63 + "q", "https://example.org/" + "x" * 200 + "/1", "https://example.org/" + "x" * 200 + "/2", "é" * 40 + "z"]
 _DATES = [dt.date(1970, 1, 1), dt.date(1969, 12, 31), dt.date(2024, 2, 29), dt.date(1, 1, 1), dt.date(9999, 12, 31), dt.date(2000, 1, 1)]
 _TS = [dt.datetime(1970, 1, 1), dt.datetime(1969, 12, 31, 23, 59, 59, 999999), dt.datetime(2024, 2, 29, 12, 0, 0, 1),
        dt.datetime(2000, 1, 1), dt.datetime(2262, 1, 1), dt.datetime(1900, 1, 1, 0, 0, 0, 500000),
@@ -45,7 +47,8 @@ def value_strategy(typ: str, small: bool = False):
     if typ == "float":
         return st.one_of(st.sampled_from(_F32), st.integers(-4, 4).map(float), st.floats(allow_nan=True, allow_infinity=True, width=32))
     if typ == "string":
-        return st.one_of(st.sampled_from(_STR), st.text(st.characters(blacklist_categories=("Cs",)), max_size=4))
+        return st.one_of(st.sampled_from(_STR), st.text(st.characters(blacklist_categories=("Cs",)), max_size=4),
+                         st.tuples(st.sampled_from(["p" * 70, "k" * 300, "é" * 33]), st.text(st.sampled_from("abz"), max_size=2)).map(lambda t: t[0] + t[1]))
     if typ == "uuid":
         return st.sampled_from(_UUIDS)
     if typ == "binary":
